@@ -1,5 +1,5 @@
 """C16 -- serde form is exactly the string form (DESIGN.md 5.16).  Analysed in the feature set {default, serde}."""
-from purlsa.core import AnchorError
+from purlsa.core import AnchorError, callee_name
 from purlsa.sem import norm, nshow
 from purlsa import models
 from .common import fn_site
@@ -37,7 +37,10 @@ def rule_delegate(ctx):
         ok = ncalls == 1
     elif t[0] == "call" and t[1].endswith("Serializer::serialize_str") and t[2][0] == ("arg", 2):
         s_ = t[2][1]
-        ok = s_[0] == "call" and s_[1].endswith("ToString::to_string") and s_[2] == (("arg", 1),) and ncalls == 2
+        while s_[0] == "conv":
+            s_ = s_[1]
+        others = [callee_name(tt["callee"]) for _, tt in b.calls() if not (callee_name(tt["callee"]).endswith("Serializer::serialize_str") or callee_name(tt["callee"]).endswith("ToString::to_string") or "Deref" in callee_name(tt["callee"]) or callee_name(tt["callee"]).endswith("::as_str"))]
+        ok = (s_ == ("arg", 1) or s_[0] == "call" and s_[1].endswith("ToString::to_string") and s_[2] == (("arg", 1),)) and not others
     ctx.ob("DELEGATE", "serialize = serializer.collect_str(self)  [the Display form as one string]", ok and not b.back_edges(), fn=ser[0], site=fn_site(facts, ser[0]), detail="%s (%d calls)" % (nshow(t)[:160], ncalls))
     # Deserialize
     b = facts.body(de[0])
@@ -59,7 +62,17 @@ def rule_delegate(ctx):
         return
     b = facts.body(vs[0])
     t = norm(b.resolve_local(0))
-    ok = t[0] == "call" and t[1] == "std::result::Result::<T, E>::map_err" and t[2][0][0] == "call" and t[2][0][1] == fromstr and t[2][0][2] == (("arg", 2),) and t[2][1][0] == "fn" and t[2][1][1].endswith("de::Error::custom")
+    ok = False
+    if t[0] == "call" and t[1] == "std::result::Result::<T, E>::map_err" and t[2][0][0] == "call" and t[2][0][2] == (("arg", 2),):
+        src, conv = t[2]
+        # GenericPurl::from_str(v)  or  v.parse::<GenericPurl<T>>()  (str::parse is FromStr::from_str)
+        parse_call = [tt for _, tt in b.calls() if callee_name(tt["callee"]) == "core::str::<impl str>::parse"]
+        oksrc = src[1] == fromstr or (src[1] == "core::str::<impl str>::parse" and len(parse_call) == 1 and parse_call[0]["callee"].get("args", [""])[0].startswith("GenericPurl<"))
+        okconv = conv[0] == "fn" and conv[1].endswith("de::Error::custom")
+        if conv[0] == "closure" and conv[1] in facts.bodies:
+            ct = norm(facts.body(conv[1]).resolve_local(0))
+            okconv = ct[0] == "call" and ct[1].endswith("de::Error::custom") and ct[2] == (("arg", 2),)
+        ok = oksrc and okconv
     ctx.ob("DELEGATE", "visit_str(v) = GenericPurl::from_str(v).map_err(Error::custom)  [input passed through unmodified]", ok and len(list(b.calls())) == 2 and not b.back_edges(), fn=vs[0], site=fn_site(facts, vs[0]), detail=nshow(t)[:200])
     # no serde attribute-derived impl on GenericPurl / PurlParts (would serialise the fields instead)
     derived = [im for im in facts.impls if im.get("self_adt") in ("GenericPurl", "PurlParts", "qualifiers::Qualifiers") and ("Serialize" in (im.get("trait") or "") or "Deserialize" in (im.get("trait") or "")) and im["derived"]]
